@@ -339,6 +339,13 @@ def compare(impl, model, cell=None, tol_rel=None):
             cell = ("SGal3", cell[1])         # the element's LU-based inverse Jacobians
         elif cell[0].startswith("B:") and gen.GROUPS[cell[0]]["dof"] >= 8 and cell[1] in GEMM_OPS:
             cell = ("SE_2_3", "lplus")        # same treatment: rounding tolerance
+    if cell in TOL_CELLS and cell[1] in ("avg_w", "avg_fl", "avg_fr"):
+        # iterative GEMM cells (see the tolerance below): on an ill-conditioned cloud the iteration can leave the
+        # validity band on one side only (the summation order of the 10x10 products differs) - an element that fails
+        # validation on one side and a value on the other are not comparable
+        ti, tm = impl.split(), model.split()
+        if {ti[0], tm[0]} == {"ok", "err"} and "invalid_argument" in (ti[1:2] + tm[1:2]):
+            return True, "iter-status"
     if cell in TOL_CELLS or cell in LU_CELLS:
         ti, tm = impl.split(), model.split()
         if ti[:1] == tm[:1] == ["ok"] and len(ti) == len(tm):
